@@ -89,18 +89,24 @@ pub fn collect_struct(module: &str, s: &ItemStruct) -> StructInfo {
             // #[cfg_attr(feature = "borsh", derive(borsh::BorshDeserialize, borsh::BorshSerialize))]
             let toks = a.meta.require_list().map(|l| l.tokens.to_string()).unwrap_or_default();
             let norm: String = toks.split_whitespace().collect::<Vec<_>>().join(" ");
-            if norm.contains("feature = \"borsh\"") && norm.contains("derive") {
+            if norm.contains("feature = \"borsh\"") && !norm.contains("not (") && !norm.contains("not(") {
+                // accepted spellings: the two derives qualified (`borsh :: BorshSerialize`) or bare (imported), in one
+                // `cfg_attr` or one each; `borsh(crate = "borsh")` (where the derive macro finds the crate: no effect on
+                // the bytes).  Anything else inside the attribute is recorded verbatim (=> the struct's codecs are not emitted).
                 if norm.contains("BorshDeserialize") {
                     derives.push("cfg(borsh)::BorshDeserialize".into());
                 }
                 if norm.contains("BorshSerialize") {
                     derives.push("cfg(borsh)::BorshSerialize".into());
                 }
-                // anything beyond the two derives is recorded verbatim
                 let stripped = norm
                     .replace("feature = \"borsh\"", "")
+                    .replace("borsh (crate = \"borsh\")", "")
+                    .replace("borsh ( crate = \"borsh\" )", "")
                     .replace("borsh :: BorshDeserialize", "")
                     .replace("borsh :: BorshSerialize", "")
+                    .replace("BorshDeserialize", "")
+                    .replace("BorshSerialize", "")
                     .replace("derive", "")
                     .replace(['(', ')', ',', ' '], "");
                 if !stripped.is_empty() {
@@ -109,7 +115,7 @@ pub fn collect_struct(module: &str, s: &ItemStruct) -> StructInfo {
             } else {
                 other_attrs.push(format!("cfg_attr({norm})"));
             }
-        } else if p.is_ident("doc") || p.is_ident("allow") {
+        } else if p.is_ident("doc") || p.is_ident("allow") || p.is_ident("must_use") || p.is_ident("warn") || p.is_ident("deny") {
         } else {
             other_attrs.push(path_str(p) + &a.meta.require_list().map(|l| format!("({})", l.tokens)).unwrap_or_default());
         }
